@@ -122,7 +122,7 @@ pub fn run(ctx: &Ctx, arch: Arch, ev: &mut Evidence, report: &mut Report) {
         return;
     }
     if !ev.rule.contains("placement matrix") {
-        ev.rule.push_str(" Placement matrix (exhaustive in the thorough tier, every third configuration in the quick tier): every arithmetic operator and every comparison in two-operand and zero form, operands at the first/last/adjacent/middle positions of environments of six widths around the backend's register/spill boundary, over all pairs of nine boundary values (0, +-1, small, i64::MIN/MAX, +-2^31); a neighbouring variable is read afterwards so that a clobber shows.");
+        ev.rule.push_str(" Placement matrix (exhaustive in the thorough tier, every third configuration in the quick tier): every arithmetic operator and every comparison in two-operand and zero form, operands at the first/last/adjacent/middle positions of environments of six widths around the backend's register/spill boundary, over all pairs of nine boundary values (0, +-1, small, i64::MIN/MAX, +-2^31); a neighbouring variable is read afterwards so that a clobber shows; plus a literal matrix: all 256 combinations of the halfwords 0x0000/0xFFFF/0x8000/0x1234 materialised into a register and into a spill slot.");
     }
     let mut configs: Vec<(usize, usize, usize, i64, i64, Test, usize)> = vec![];
     let step = ctx.tier.pick(3, 1);
@@ -157,6 +157,21 @@ pub fn run(ctx: &Ctx, arch: Arch, ev: &mut Evidence, report: &mut Report) {
                     configs.push((n, p, q, a, b, t, nb));
                 }
             }
+        }
+    }
+    // literal matrix: every combination of the halfwords 0x0000, 0xFFFF, 0x8000, 0x1234 in the four
+    // 16-bit positions, materialised into the last variable of a narrow and of a wide environment
+    // (register and spill target) and added to a zero
+    let hw = [0x0000u64, 0xFFFF, 0x8000, 0x1234];
+    let widths: [usize; 2] = match arch {
+        Arch::X86 => [3, 9],
+        Arch::A64 => [3, 16],
+        Arch::Rv => [3, 9],
+    };
+    for c in 0..256usize {
+        let v = (0..4).fold(0u64, |acc, k| acc | (hw[(c >> (2 * k)) & 3] << (16 * k))) as i64;
+        for n in widths {
+            configs.push((n, n - 1, 0, v, 0, Test::Op(0), 0));
         }
     }
     let results: Vec<(usize, CaseResult)> = configs
